@@ -18,6 +18,7 @@ package main
 import (
 	"io"
 	"log"
+	"math"
 	"math/rand"
 	"sort"
 
@@ -166,13 +167,13 @@ func (g *zgen) bound() int64 {
 	r := g.rng
 	switch r.Intn(8) {
 	case 0:
-		return g.scores[0] - 1 - int64(r.Intn(3))
+		return satAdd(g.scores[0], -1-int64(r.Intn(3)))
 	case 1:
-		return g.scores[len(g.scores)-1] + 1 + int64(r.Intn(3))
+		return satAdd(g.scores[len(g.scores)-1], 1+int64(r.Intn(3)))
 	case 2:
-		return g.score() - 1
+		return satAdd(g.score(), -1)
 	case 3:
-		return g.score() + 1
+		return satAdd(g.score(), 1)
 	}
 	return g.score()
 }
@@ -186,8 +187,34 @@ func (g *zgen) sortedScores() []int64 {
 	return l
 }
 
+// extreme bounds: the int64 limits and their neighbours, and the values around zero
+var extremes = []int64{math.MinInt64, math.MinInt64 + 1, -1, 0, 1, math.MaxInt64 - 1, math.MaxInt64}
+
+func satAdd(a, d int64) int64 {
+	if d > 0 && a > math.MaxInt64-d {
+		return math.MaxInt64
+	}
+	if d < 0 && a < math.MinInt64-d {
+		return math.MinInt64
+	}
+	return a + d
+}
+
 func (g *zgen) scoreRange() (int64, int64) {
 	r := g.rng
+	if r.Chance(1, 5) { // an extreme value as min and/or max (min > max included)
+		a, b := extremes[r.Intn(len(extremes))], extremes[r.Intn(len(extremes))]
+		switch r.Intn(3) {
+		case 0:
+			a = g.bound()
+		case 1:
+			b = g.bound()
+		}
+		if a > b && !r.Chance(1, 4) {
+			a, b = b, a
+		}
+		return a, b
+	}
 	l := g.sortedScores()
 	if len(l) > 0 {
 		switch r.Intn(10) {
@@ -198,11 +225,11 @@ func (g *zgen) scoreRange() (int64, int64) {
 		case 2: // everything
 			return l[0], l[len(l)-1]
 		case 3: // everything and more
-			return l[0] - 5, l[len(l)-1] + 5
+			return satAdd(l[0], -5), satAdd(l[len(l)-1], 5)
 		case 4: // empty: between two scores / outside
-			return l[len(l)-1] + 1, l[len(l)-1] + 9
+			return satAdd(l[len(l)-1], 1), satAdd(l[len(l)-1], 9)
 		case 5:
-			return l[0] - 9, l[0] - 1
+			return satAdd(l[0], -9), satAdd(l[0], -1)
 		}
 	}
 	a, b := g.bound(), g.bound()
@@ -372,6 +399,16 @@ func genHistory(rng *Rng, kind string) (Sx, bool) {
 			g.scores[i] = base + int64(i)*10
 		}
 	}
+	if rng.Chance(1, 6) { // members at the limits of int64
+		switch rng.Intn(3) {
+		case 0:
+			g.scores = append([]int64{math.MinInt64}, g.scores...)
+		case 1:
+			g.scores = append(g.scores, math.MaxInt64)
+		default:
+			g.scores = append(append([]int64{math.MinInt64}, g.scores...), math.MaxInt64)
+		}
+	}
 	// populate
 	fill := g.univ
 	if kind == "small" {
@@ -421,6 +458,19 @@ func gen(a Args, out *Out) {
 			ops := in.At(1)
 			for i := 0; i < ops.Len(); i++ {
 				out.Count("op:" + names[ops.At(i).At(0).AsInt()])
+				if c := ops.At(i).At(0).AsInt(); c == 2 || c == 4 || c == 8 {
+					for _, v := range []int64{ops.At(i).At(1).Int64(), ops.At(i).At(2).Int64()} {
+						if v == math.MaxInt64 || v == math.MinInt64 {
+							out.Count("score-range-op-with-int64-limit-bound")
+							break
+						}
+					}
+				}
+				if c := ops.At(i).At(0).AsInt(); c == 0 {
+					if v := ops.At(i).At(2).Int64(); v == math.MaxInt64 || v == math.MinInt64 {
+						out.Count("add-with-int64-limit-score")
+					}
+				}
 				if obs.At(i).At(0).AsInt() == 3 {
 					out.Count("runtime-panics")
 				}
